@@ -113,7 +113,8 @@ Definition wit_ErrorIq :=
 Lemma ErrorIq_backoff0_refuted : refutes schema_ErrorIq_wide wit_ErrorIq.
 Proof. refute_start. kid0 Hn. attr_differs Hn (s "backoff"). Qed.
 
-(* open finding: the documented mode="none" of a group removal notification is dropped *)
+(* fixed by fixes/C09-remove-groups-mode.patch (witness of the pre-fix class): the documented mode="none" of a
+   group removal notification was dropped *)
 Definition notif_hdr := [a "t" "1420402514"; a "from" "49-14@g.us"; a "type" "w:gp2"; a "id" "7";
                          a "notify" "WhatsApp"; a "participant" "49@s.whatsapp.net"].
 Definition wit_RemoveGroups :=
